@@ -513,8 +513,16 @@ func priceDiscipline(p *Prog, r *Report, rule string, modules map[string]bool, f
 						}
 					}
 				}
-				if used {
-					r.OK(rule, construct, "error result is consumed", p.instrPos(c))
+				swallowedPos := ""
+				if used && errResultIndex(fn) >= 0 {
+					if sw, pos := errorSwallowed(p, fn, c); sw {
+						swallowedPos = pos
+					}
+				}
+				if used && swallowedPos != "" {
+					r.Fail(rule, construct+" (failure branch succeeds)", "the failure branch of a price/ratio helper reaches a success exit: an inactive or missing price does not make the operation fail", swallowedPos, nil)
+				} else if used {
+					r.OK(rule, construct, "error result is consumed and its failure branch cannot succeed", p.instrPos(c))
 				} else {
 					// several discards in one function are one construct each by ordinal
 					n := 1
